@@ -276,7 +276,10 @@ class SC:
     def __add__(self, o):
         if isinstance(o, numpy.ndarray):
             return _ew(lambda b: self + b, o)
-        o = SC.lift(o)
+        try:
+            o = SC.lift(o)
+        except TypeError:
+            return NotImplemented
         lin = None
         sl, ol = _lins(self, o)
         if sl is not None:
@@ -288,7 +291,10 @@ class SC:
     def __sub__(self, o):
         if isinstance(o, numpy.ndarray):
             return _ew(lambda b: self - b, o)
-        o = SC.lift(o)
+        try:
+            o = SC.lift(o)
+        except TypeError:
+            return NotImplemented
         lin = None
         sl, ol = _lins(self, o)
         if sl is not None:
@@ -303,7 +309,10 @@ class SC:
     def __mul__(self, o):
         if isinstance(o, numpy.ndarray):
             return _ew(lambda b: self * b, o)
-        o = SC.lift(o)
+        try:
+            o = SC.lift(o)
+        except TypeError:
+            return NotImplemented
         lin = None
         if self.lin is not None and o.is_const():
             lin = _lin_scale(self.lin, o)
@@ -343,7 +352,10 @@ class SC:
     def __truediv__(self, o):
         if isinstance(o, numpy.ndarray):
             return _ew(lambda b: self / b, o)
-        o = SC.lift(o)
+        try:
+            o = SC.lift(o)
+        except TypeError:
+            return NotImplemented
         return self * o.reciprocal()
 
     def __rtruediv__(self, o):
@@ -1112,6 +1124,16 @@ class Env:
         if hi is not None:
             self.assumptions.append(("%s<=%s" % (name, hi), v <= hi))
         return v
+
+    def pick_int(self, name, lo, hi):
+        """a solver-chosen integer in lo..hi made concrete on each path (the explorer forks per value)"""
+        v = self.ivar(name, lo, hi)
+        if self.mode == "num":
+            return int(v)
+        for c in range(lo, hi + 1):
+            if self.decide(v == c):
+                return c
+        raise PathAbort("no value")
 
     def pos(self, name):
         self.decl[name] = Decl("pos")
